@@ -308,6 +308,55 @@ def cmd_check(pid, tier):
     return rc
 
 
+def _digest_chunk(args):
+    pid, tier, verif_seed, i0, i1 = args
+    mod = _W["mod"]
+    out = []
+    for idx in range(i0, i1):
+        seed = core.run_seed(verif_seed, pid, tier, idx)
+        scn = mod.gen(seed, tier, idx) if getattr(mod, "GEN_TAKES_INDEX", False) else mod.gen(seed, tier)
+        res = mod.execute(scn)
+        out.append([idx, res.get("digest"), len(res["violations"])])
+    return out
+
+
+def cmd_digests(pid, n, workers):
+    """Prints the per-run digests of run indices [0, n) as JSON (determinism self-test building block)."""
+    ctx = mp.get_context("fork")
+    out = []
+    with cf.ProcessPoolExecutor(max_workers=workers, mp_context=ctx, initializer=_worker_init, initargs=(pid,)) as ex:
+        step = max(1, n // (workers * 4))
+        futs = [ex.submit(_digest_chunk, (pid, "quick", 0, i, min(n, i + step))) for i in range(0, n, step)]
+        for f in futs:
+            out.extend(f.result())
+    out.sort()
+    print("DIGESTS " + json.dumps(out))
+    return 0
+
+
+def cmd_selftest(pids, n):
+    """Determinism: same run seed => same digest across (PYTHONHASHSEED, worker count, repetition, fresh interpreter)."""
+    bad = 0
+    for pid in pids:
+        runs = []
+        for hs, w in (("0", 16), ("7", 3), ("0", 16)):
+            env = dict(os.environ, PYTHONHASHSEED=hs)
+            p = subprocess.run([sys.executable, "-X", "faulthandler", "-m", "sim.main", "--digests", pid, "--n", str(n), "--workers", str(w)],
+                               cwd=core.VERIF_DIR, env=env, capture_output=True, text=True, timeout=3600)
+            line = [ln for ln in p.stdout.splitlines() if ln.startswith("DIGESTS ")]
+            if p.returncode != 0 or not line:
+                print(f"[selftest] {pid}: digest run failed (hashseed={hs}, workers={w}): {p.stdout[-500:]} {p.stderr[-1500:]}")
+                bad += 1
+                break
+            runs.append(json.loads(line[0][8:]))
+        else:
+            diff = [i for i, (a_, b_, c_) in enumerate(zip(*runs)) if not (a_ == b_ == c_)]
+            print(f"[selftest] {pid}: {n} run seeds x 3 configurations (hashseed 0/16 workers, hashseed 7/3 workers, repeat): "
+                  f"{'all digests equal' if not diff else f'{len(diff)} DIVERGED, first at index {diff[0]}: ' + str([r[diff[0]] for r in runs])}")
+            bad += bool(diff)
+    return 2 if bad else 0
+
+
 def cmd_setup():
     import numpy  # noqa: F401
     import beartype  # noqa: F401
@@ -332,12 +381,20 @@ def main(argv=None):
     ap.add_argument("--tier", default=os.environ.get("VERIF_TIER", "quick"))
     ap.add_argument("--replay")
     ap.add_argument("--setup", action="store_true")
+    ap.add_argument("--digests")
+    ap.add_argument("--selftest", nargs="?", const="all")
+    ap.add_argument("--n", type=int, default=200)
+    ap.add_argument("--workers", type=int, default=16)
     a = ap.parse_args(argv)
     warnings.simplefilter("ignore")
     if a.setup:
         return cmd_setup()
     if a.replay:
         return cmd_replay(a.replay)
+    if a.digests:
+        return cmd_digests(a.digests.upper(), a.n, a.workers)
+    if a.selftest:
+        return cmd_selftest(PROPS if a.selftest == "all" else [x.upper() for x in a.selftest.split(",")], a.n)
     if not a.pid:
         ap.error("property id required")
     tier = os.environ.get("VERIF_TIER") or a.tier
